@@ -7,6 +7,7 @@
 #include <arpa/inet.h>
 #include <atomic>
 #include <cerrno>
+#include <csignal>
 #include <chrono>
 #include <cstdlib>
 #include <filesystem>
@@ -243,6 +244,17 @@ void Session::init(const Config& cfg) {
   std_setup();
   m_scratch = std::string(LTV_SCRATCH_ROOT) + "/" + std::to_string(getpid());
   std::error_code ec;
+  // prune scratch directories of processes that no longer exist (crashed or killed drivers)
+  for (auto it = fs::directory_iterator(LTV_SCRATCH_ROOT, ec); !ec && it != fs::directory_iterator(); it.increment(ec)) {
+    std::string n = it->path().filename().string();
+    if (n.empty() || n.find_first_not_of("0123456789") != std::string::npos) continue;
+    pid_t pid = (pid_t)atol(n.c_str());
+    if (pid > 0 && pid != getpid() && kill(pid, 0) != 0 && errno == ESRCH) {
+      std::error_code ec2;
+      fs::remove_all(it->path(), ec2);
+    }
+  }
+  ec.clear();
   fs::remove_all(m_scratch, ec);
   fs::create_directories(m_scratch);
   g_scratch_for_exit = m_scratch;
